@@ -168,8 +168,13 @@ def table_R(repo):
                 key = norm(".".join(base + parts2))
                 declared = sorted(int(x) for x in re.search(r'tags\s*=\s*"([^"]+)"', attr).group(1).split(","))
                 members = [field(a, n, t, m2, oneof=fname) for (a, n, t, m2) in oneofs.get(key, [])]
-                assert sorted(m["num"] for m in members) == declared, (name, declared, members)
-                res.extend(members)
+                # prost routes an incoming field to the oneof only if its tag is in the struct attribute's `tags`
+                # list; a member missing there is not part of the message as decoded, a tag without a member is
+                # reported as a nameless field
+                res.extend(m for m in members if m["num"] in declared)
+                for t in declared:
+                    if t not in [m["num"] for m in members]:
+                        res.append({"num": t, "name": "?", "oneof": fname, "key": "", "value_kind": "", "value": "", "label": "oneof", "kind": "?", "type": "?"})
             else:
                 res.append(field(attr, fname, ty, ms))
         out[name] = sorted(res, key=lambda x: x["num"])
